@@ -282,6 +282,12 @@ func (x *Exec) checkFrame(st *State, fr *Frame, c *Contract, at string) {
 			if !mine {
 				continue
 			}
+			if strings.HasPrefix(k, "glob.") {
+				// package variables live at the nil reference of their own array: unchanged as a whole
+				goal := Term{S: "(= " + cur.S + " " + entry.S + ")", Sort: sBool}
+				x.oblige(st, fmt.Sprintf("%s/frame:%s", x.curFunc, k), "frame", c.FrameTags, goal, fr.fn.Pos(), "package variable "+strings.TrimPrefix(k, "glob.")+" is not written ("+at+")")
+				continue
+			}
 		}
 		var excl []string
 		excl = append(excl, "(= (is_fresh r!) 0)", "(not (= r! ref_nil))")
